@@ -46,7 +46,7 @@ ClausesOf ==
    C12S |-> {"C12_OneSecondAfterAnySighting"},
    C08 |-> {"C08_GoodbyeComplete", "C08_NoResurrection", "C08_AnnouncementComplete"},
    C15 |-> {"C15_NoException", "C15_OversizeIgnored", "C15_InvalidIgnored", "C15_CanaryAdded", "C15_CanaryAnswered"},
-   C17 |-> {"C17_Quiet", "C17_GoodbyesBeforeClose", "C17_Idempotent", "C17_NoTimerRaises"},
+   C17 |-> {"C17_Quiet", "C17_GoodbyesBeforeClose", "C17_Idempotent", "C17_NoTimerRaises", "C17_AnnouncedNotWithdrawn"},
    C09 |-> {"C09_ProbeSchedule", "C09_ProbeShape", "C09_ConflictDetected", "C09_Rename", "C09_SpuriousFailure", "C09_WrongException",
             "C09_NeverTwice", "C09_NeverAnnounced", "C09_AnnouncedBeforeProbing", "C09_AnnouncementComplete"}]
 \* loop latency the scenarios of this batch inject on purpose (a callback that keeps the loop busy): the announcement and goodbye
@@ -65,7 +65,7 @@ NoProbe == [on |-> FALSE, sid |-> -1, cands |-> <<>>, k |-> 1, r |-> 0, i |-> 0,
 InitState ==
   [reg |-> [k \in 0..7 |-> NoSvc], seen |-> <<>>, tx |-> <<>>, lastDid |-> 0, lastProc |-> -100000, lastQU |-> FALSE,
    obl |-> {}, qn |-> 0, slots |-> {}, gone |-> {}, exp |-> NoExp, hold |-> {}, inRecv |-> FALSE,
-   lastTcSrc |-> 0, oversize |-> FALSE, invalid |-> FALSE, added |-> {}, closed |-> FALSE, closing |-> FALSE, pr |-> NoProbe, pendReg |-> NoSvc, rejected |-> {}, again |-> <<>>, err |-> ""]
+   lastTcSrc |-> 0, oversize |-> FALSE, invalid |-> FALSE, added |-> {}, closed |-> FALSE, closing |-> FALSE, annc |-> {}, pr |-> NoProbe, pendReg |-> NoSvc, rejected |-> {}, again |-> <<>>, err |-> ""]
 
 (* ------------------------------------------------------------------ registry *)
 Sids(st) == {k \in 0..7 : st.reg[k] # NoSvc}
@@ -265,7 +265,10 @@ OnApiRet(st, e) ==
   IF e.op = "close"
   THEN IF Bad(~e.ok, "C17_Idempotent") THEN Fail(st, "C17_Idempotent")
        ELSE IF Bad(\E x \in st.slots : x.kind = "bye" /\ ~x.used, "C17_GoodbyesBeforeClose") THEN Fail(st, "C17_GoodbyesBeforeClose")
-       ELSE [st EXCEPT !.closed = TRUE, !.closing = FALSE, !.obl = {}, !.slots = {}, !.exp = NoExp]
+       \* whatever was multicast as live while the instance was closing (the announcements of a registration that completed
+       \* after the close request) has been withdrawn again by the time close returns
+       ELSE IF Bad(st.annc # {}, "C17_AnnouncedNotWithdrawn") THEN Fail(st, "C17_AnnouncedNotWithdrawn")
+       ELSE [st EXCEPT !.closed = TRUE, !.closing = FALSE, !.annc = {}, !.obl = {}, !.slots = {}, !.exp = NoExp]
   ELSE IF st.closed \/ st.closing THEN st           \* a registration that was in flight when the instance closed: not judged
   ELSE IF e.op # "reg" THEN st
   ELSE IF st.again # <<>>
@@ -463,7 +466,15 @@ OnSend(st, e) ==
        THEN LET x == CHOOSE y \in slot : TRUE IN
             [st EXCEPT !.slots = (@ \ {x}) \cup {[x EXCEPT !.used = TRUE]},
                        !.obl = {IF o.st = "late" /\ o.r \in RidsOf(e.an) THEN [o EXCEPT !.st = "cov"] ELSE o : o \in @}]
+       \* while the instance closes, what a registration still in flight multicasts is not judged as a reply: C17 looks at it
+       \* when close returns (TrackClosing)
+       ELSE IF st.closing THEN st
        ELSE OnMulticastReply(st, e)
+
+TrackClosing(st, e) ==
+  IF st.err # "" \/ ~st.closing \/ e.bad \/ ~e.mc THEN st
+  ELSE [st EXCEPT !.annc = (@ \cup {e.an[k][1] : k \in {j \in 1..Len(e.an) : e.an[j][2] > 0}})
+                            \ {e.an[k][1] : k \in {j \in 1..Len(e.an) : e.an[j][2] = 0}}]
 
 (* an announcement / goodbye slot whose instant has passed without its datagram *)
 MissedSlot(st, t) == \E x \in st.slots : ~x.used /\ x.t + Slack < t
@@ -487,7 +498,7 @@ Step(st0, e, alt) ==
    ELSE IF Bad(ProbeOverdue(st1, e.t), "C09_ProbeSchedule") THEN Fail(st1, "C09_ProbeSchedule")
    ELSE CASE e.ev = "recv"      -> OnRecv(st1, e)
           [] e.ev = "recv_done" -> OnRecvDone(st1, e)
-          [] e.ev = "send"      -> OnSend(st1, e)
+          [] e.ev = "send"      -> TrackClosing(OnSend(st1, e), e)
           [] e.ev = "api"       -> OnApi(st1, e)
           [] e.ev = "api_ret"   -> OnApiRet(st1, e)
           [] e.ev = "rand"      -> OnRand(st1, e)
